@@ -38,7 +38,8 @@ type Prog struct {
 	ssaPkgs []*ssa.Package
 	full    bool
 	cg      *callGraph
-	byPkg   map[*packages.Package][]*FuncInfo
+	mutGlobals map[*types.Var]*globalState
+	byPkg  map[*packages.Package][]*FuncInfo
 }
 
 // FuncInfo ties a declared function to its syntax and package.
